@@ -202,6 +202,13 @@ package factory
 //@ let p0 = PropsLen[name]
 //@ ensures [properties-stage-in-list-order] PropsLen[name] >= p0 && forall(k, int, implies(p0 <= k && k < PropsLen[name], 0 <= PropsPos[name][k] && PropsPos[name][k] < len(f.componentPostProcessors) && toany(PropsAt[name][k]) == toany(f.componentPostProcessors[PropsPos[name][k]])), PropsPos[name][k]) && forall(a, int, forall(b, int, implies(p0 <= a && a < b && b < PropsLen[name], PropsPos[name][a] < PropsPos[name][b])))
 //@ ghost after call PostProcessProperties: PropsPos = store(PropsPos, name, store(PropsPos[name], PropsLen[name] - 1, _idx))
+//@ ghost after call PostProcessProperties: PropsOfPos = store(PropsOfPos, name, store(PropsOfPos[name], _idx, PropsLen[name] - 1))
+//@ ghost after call PostProcessAfterInstantiation: AiAnswer = store(AiAnswer, name, store(AiAnswer[name], _idx, _result0))
+// completeness of the properties stage: on success every instantiation-aware processor of the list that did not opt out
+// (PostProcessAfterInstantiation answered true) has run its PostProcessProperties for this component - one processor
+// opting out does not end the stage for the processors after it
+//@ ensures [every-willing-processor-populates] implies(result == nil, forall(i, int, implies(0 <= i && i < len(f.componentPostProcessors) && implements(f.componentPostProcessors[i], container.InstantiationAwareComponentPostProcessor) && AiAnswer[name][i], p0 <= PropsOfPos[name][i] && PropsOfPos[name][i] < PropsLen[name] && PropsPos[name][PropsOfPos[name][i]] == i), PropsOfPos[name][i]))
+//@ loop 1 invariant [willing-so-far] forall(i, int, implies(0 <= i && i < _done && implements(f.componentPostProcessors[i], container.InstantiationAwareComponentPostProcessor) && AiAnswer[name][i], p0 <= PropsOfPos[name][i] && PropsOfPos[name][i] < PropsLen[name] && PropsPos[name][PropsOfPos[name][i]] == i), PropsOfPos[name][i])
 //@ loop 1 invariant [lifecycle-untouched] St == old(St) && BeforeLen == old(BeforeLen) && AfterLen == old(AfterLen) && ApsCalls == old(ApsCalls) && InitCalls == old(InitCalls) && ShortCircuit == old(ShortCircuit) && Wrapped == old(Wrapped) && RTop >= old(RTop)
 //@ loop 1 invariant [no-failure-so-far] Failed == old(Failed)
 //@ loop 1 invariant [trace-so-far] PropsLen[name] >= p0 && forall(k, int, implies(p0 <= k && k < PropsLen[name], 0 <= PropsPos[name][k] && PropsPos[name][k] < _done && toany(PropsAt[name][k]) == toany(f.componentPostProcessors[PropsPos[name][k]])), PropsPos[name][k]) && forall(a, int, forall(b, int, implies(p0 <= a && a < b && b < PropsLen[name], PropsPos[name][a] < PropsPos[name][b])))
